@@ -20,7 +20,18 @@ def find_dispatch_site(P):
         for m, fi in ci.methods.items():
             for n in ast.walk(fi.node):
                 if isinstance(n, ast.Call) and isinstance(n.func, ast.Attribute) and n.func.attr == "dispatch":
-                    sites.append((c, fi))
+                    # a private helper with a single caller in the class is analysed from that caller (the engine inlines it):
+                    # the lock and the dequeued entry live there
+                    cur = fi
+                    for _ in range(4):
+                        if not cur.name.startswith("_") or cur.name.startswith("__"):
+                            break
+                        callers = [g for g in ci.methods.values() if g is not cur and any(isinstance(x, ast.Call) and ast.unparse(x.func) == f"self.{cur.name}" for x in ast.walk(g.node))]
+                        if len(callers) != 1:
+                            break
+                        cur = callers[0]
+                    if (c, cur) not in sites:
+                        sites.append((c, cur))
                     break
     if not sites:
         raise AnalysisError("anchor vanished: no <handler>.dispatch(event) call in any EventDispatcher subclass")
